@@ -243,9 +243,12 @@ Section Flat.
       let ex := fun a => option_map strip_i (expand_recurse f stk true a) in
       let same := fun (x y : enc) => mw_equal (codes x) (codes y) in
       match cases with
-      | [] => match defval with
-              | Some d => ex d
-              | None => Some (match lastv with Some l => l | None => [] end)
+      | [] => match lastv with
+              | Some l => Some l            (* a final item without "=" is the default, whatever "#default=" said *)
+              | None => match defval with
+                        | Some d => ex d
+                        | None => Some []
+                        end
               end
       | a :: rest =>
         match split_switch a with
